@@ -48,6 +48,8 @@ THEOREMS = ['C11_inverse_den', 'C11_inverse_complcell_rejects',
             'C11_get_ast2_eq_bounded', 'C11_get_ast2_eq_bounded6',
             'C11_normalize2_normal_form', 'C11_peg_normal_form',
             'C11_get_ast2_eq_written', 'C11_get_ast2_eq_accepted',
+            'C11_peg_any_tokens', 'C11_get_ast2_eq_lexable',
+            'C11_get_ast2_private_syntax_refuted',
             'C11_get_ast2_layout_partial',
             'C11_nested_refuted']
 TRUSTED = [
@@ -56,9 +58,10 @@ TRUSTED = [
     'function per re.sub of normalize() + character-level PEG, shaped like '
     'the code). Trusted: each regex = its rewriting function and the PEG = '
     'peg_start beyond the enumerated lengths (tied step by step on all short '
-    'strings). Proved: the two models agree on every writing of every '
-    'expression (any length) and on all strings of length <= 6; not proved: '
-    'the rejected side outside the layout family for longer strings',
+    'strings). Proved: the two models agree on every string the lexer can '
+    'tokenize (any length, accepted or rejected) and on all strings of '
+    'length <= 6; not proved: strings longer than 6 that contain a lexical '
+    'error (both models reject them in the thorough computation)',
     'harness PEG shim replacing TatSu (reads geom.ebnf and GeomSemantics from '
     'the repository)',
     'fingerprints of the exhaustive tie: equality of (accepted count, weighted '
